@@ -47,6 +47,12 @@ func NewMultiClusterTokenReviewAuthenticator(clientProvider clusters.ClientProvi
 	}
 }
 
+// clusterCacheKey identifies the token cache of a host served by a cluster
+type clusterCacheKey struct {
+	host    string
+	cluster *clusters.ClusterInfo
+}
+
 func (a *multiClusterTokenReviewAuthenticator) AuthenticateToken(ctx context.Context, token string) (*authenticator.Response, bool, error) {
 	info, ok := request.ExtraRequestInfoFrom(ctx)
 	if !ok {
@@ -64,17 +70,19 @@ func (a *multiClusterTokenReviewAuthenticator) AuthenticateToken(ctx context.Con
 		// if token cache ttl is 0, call upstream cluster directly
 		tokenAuth = a.authenticateTokenForHost(host)
 	} else {
-		// split cache by host
-		cache, loaded := a.caches.Load(host)
+		// split cache by host and by the cluster serving it now: a server name can
+		// move to another cluster while both keep running
+		cacheKey := clusterCacheKey{host: host, cluster: cluster}
+		cache, loaded := a.caches.Load(cacheKey)
 		if !loaded {
 			// use token cache, if no cache is hit, authenticateToken() will be called
 			// tokencache use a new context inheriting from context.Background() without all value of req.Context.
-			cache, loaded = a.caches.LoadOrStore(host, tokencache.New(a.authenticateTokenForHost(host), false, a.tokenSuccessCacheTTL, a.tokenFailureCacheTTL))
+			cache, loaded = a.caches.LoadOrStore(cacheKey, tokencache.New(a.authenticateTokenForHost(host), false, a.tokenSuccessCacheTTL, a.tokenFailureCacheTTL))
 			// destry cache when cluster stopped
 			if !loaded {
 				go func() {
 					<-cluster.Context().Done()
-					a.caches.Delete(host)
+					a.caches.Delete(cacheKey)
 				}()
 			}
 		}
